@@ -1,9 +1,12 @@
 #!/bin/sh
-# run every registered check (quick tier) on the current tree; summary on stdout
+# run_all.sh [tier] [Cxx ...]: run the registered checks (default: all, quick tier) on the current tree; summary on stdout
 cd "$(dirname "$0")/.." || exit 2; mkdir -p out
-for p in $(python3 -c "import json;print(' '.join(c['property_id'] for c in json.load(open('MANIFEST.json'))['checks']))"); do
+TIER=${1:-quick}
+[ $# -gt 0 ] && shift
+LIST=${@:-$(python3 -c "import json;print(' '.join(c['property_id'] for c in json.load(open('MANIFEST.json'))['checks']))")}
+for p in $LIST; do
   t0=$(date +%s)
-  ./check $p --tier ${1:-quick} > out/runall_$p.log 2>&1
+  ./check $p --tier $TIER > out/runall_$p.log 2>&1
   rc=$?
   t1=$(date +%s)
   echo "$p exit=$rc wall=$((t1-t0))s $(grep -c '^KNOWN-FINDING' out/runall_$p.log) known $(tail -1 out/runall_$p.log | cut -c1-160)"
